@@ -128,6 +128,7 @@ NcCases == { Case("nc", [Base EXCEPT !.isCa = CaU, !.nc = [k |-> "some", perm |-
 DnKinds == {"utf8", "printable", "ia5", "teletex", "bmp", "universal"}
 (* arcs at the limits of 64 bit arithmetic (2^64 - 1, 2^64 - 128, 2^57 and 2^57 - 1: the last value that may still be shifted by 7) *)
 DnTypes == {"2.5.4.6", "2.5.4.7", "2.5.4.8", "2.5.4.10", "2.5.4.11", "2.5.4.3", "1.2.3.4.5.6", "2.999.1.2", "2.40.3", "0.9.2342.19200300.100.1.25",
+            "2.5.4.12", "2.5.4.4", "2.5.4.5", "2.5.4.9", "2.5.4.0",   \* neighbours of the named X.520 types
             "1.2.18446744073709551615", "1.2.18446744073709551488.1", "1.2.144115188075855872", "1.2.144115188075855871.5", "2.18446744073709551534"}
 DnCases == { Case("dn", [Base EXCEPT !.dn = <<E(ty, kind, "$v")>>], self, "ed25519", "ed25519", Kid("sha256"), "keypair") :
                ty \in DnTypes, kind \in DnKinds, self \in Bool }
